@@ -419,6 +419,14 @@ func c15Client(m *Model, v *Verdict, rng *RNG) {
 			if rng.Bool() {
 				mdl.creds = append(mdl.creds, mk(s, false))
 			}
+			// the same principal more than once (a ticket acquired again is appended): a second TGT, a second
+			// ticket for a service
+			if rng.Intn(3) == 0 {
+				mdl.creds = append(mdl.creds, mk([]string{"krbtgt", realm}, false))
+			}
+			if rng.Intn(4) == 0 {
+				mdl.creds = append(mdl.creds, mk(s, false))
+			}
 			if rng.Intn(3) == 0 {
 				mdl.creds = append(mdl.creds, mk(nil, true))
 			}
